@@ -552,6 +552,20 @@ class C15(PropBase):
         if not tx["v"]:
             # only `paths_to_txns` of no files at all yields an empty set; there is nothing to export
             return None if ident["v"] == "" and "files" in case and not case["files"] else {"sig": "empty-set", "what": "a load succeeded with no transactions"}
+        # whole input consumed, nothing skipped or merged: in the journal format only a transaction header starts in
+        # column 0 (every comment, metadata and posting line is indented), so an accepted text has exactly as many
+        # transactions as it has non-blank lines that start with a non-blank character
+        texts = [case["text"]] if "text" in case else [f["text"] for f in case.get("files", []) if f.get("text") is not None and
+                                                        self.selected_file(case, f)]
+        if "walk" not in case:
+            heads = 0
+            for tx_ in texts:
+                for ln in tx_.split("\n"):
+                    if ln.strip(" \t\r") != "" and ln[0] not in " \t":
+                        heads += 1
+            if heads != len(tx["v"]):
+                return {"sig": "partial-consumption", "what": "the accepted text has %d lines starting a transaction (non-blank, "
+                        "not indented) but %d transactions were loaded: content was skipped or merged" % (heads, len(tx["v"]))}
         rp = impl.get("reparse")
         if rp is None:
             return {"sig": "no-reparse", "what": "identity export was not re-loaded"}
@@ -573,6 +587,9 @@ class C15(PropBase):
                         or D(p["amount"]) != D(q["amount"]):
                     return {"sig": "altered:posting", "what": "posting differs after export/re-load: %r vs %r" % (p, q)}
         return None
+
+    def selected_file(self, case, f):
+        return True
 
     def inexact(self, txns):
         for t in txns:
